@@ -41,6 +41,14 @@ func (t *mixedTable) insert(k, v Value) {
 	if ok && t.array.setValue(i, v) {
 		return
 	}
+	if ok {
+		k = IntValue(i)
+	}
+	if t.hashTable.reset(k, v) {
+		// The key is already in the hash part: assigning to an existing field
+		// must not reorganise the table (a traversal may be in progress).
+		return
+	}
 	if t.hashTable.full() {
 		t.grow()
 		if ok && t.array.setValue(i, v) {
